@@ -294,6 +294,16 @@ func (res *Response) contentLength() (int, error) {
 	return int(v), err
 }
 
+// responseWriterOnly hides ReadFrom to avoid recursion in io.Copy.
+type responseWriterOnly struct {
+	res *Response
+}
+
+//go:norace
+func (w responseWriterOnly) Write(data []byte) (int, error) {
+	return w.res.Write(data)
+}
+
 // ReadFrom .
 //
 //go:norace
@@ -303,25 +313,31 @@ func (res *Response) ReadFrom(r io.Reader) (n int64, err error) {
 		return 0, nil
 	}
 
-	res.hasBody = true
-	res.eoncodeHead()
-	_, err = c.Write(*res.buffer)
-	mempool.Free(res.buffer)
-	res.buffer = nil
-	if err != nil {
-		return 0, err
+	res.WriteHeader(http.StatusOK)
+	res.checkChunked()
+
+	// The raw copy/sendfile path bypasses the body framing, so it is only
+	// valid for an identity body; a chunked body must go through Write.
+	if res.chunked {
+		return io.Copy(responseWriterOnly{res}, r)
 	}
 
+	// Send the head and everything that was written before, in order.
+	res.hasBody = true
+	res.Flush()
+
 	if !res.Parser.Engine.DisableSendfile {
+		src := r
+		remain := int64(0)
 		lr, ok := r.(*io.LimitedReader)
 		if ok {
-			n, r = lr.N, lr.R
-			if n <= 0 {
+			remain, src = lr.N, lr.R
+			if remain <= 0 {
 				return 0, nil
 			}
 		}
 
-		f, ok := r.(*os.File)
+		f, ok := src.(*os.File)
 		if ok {
 			rc := c
 			if hc, ok := c.(*Conn); ok {
@@ -330,23 +346,17 @@ func (res *Response) ReadFrom(r io.Reader) (n int64, err error) {
 			nc, ok := rc.(interface {
 				Sendfile(f *os.File, remain int64) (int64, error)
 			})
-			if !ok {
-				hc, ok2 := c.(*Conn)
-				if ok2 {
-					nc, ok = hc.Conn.(interface {
-						Sendfile(f *os.File, remain int64) (int64, error)
-					})
-				}
-
-			}
 			if ok {
-				ns, err := nc.Sendfile(f, lr.N)
+				ns, err := nc.Sendfile(f, remain)
+				res.bodyWritten += int(ns)
 				return ns, err
 			}
 		}
 	}
 
-	return io.Copy(c, r)
+	n, err = io.Copy(c, r)
+	res.bodyWritten += int(n)
+	return n, err
 }
 
 // Push implements the http.Pusher interface.
